@@ -17,6 +17,7 @@ import (
 func (c *compiler) declareExternalRuntimeFunction(name string, returnType types.Type, params ...*ir.Param) *ir.Func {
 	fun := c.mod.NewFunc(name, returnType, params...)
 	fun.CallingConv = enum.CallingConvC
+	zeroExtendBools(fun)
 	fun.Linkage = enum.LinkageExternal
 	c.insertFunction(name, nil, fun)
 	return fun
